@@ -135,6 +135,7 @@ func H_step_add() {
 	c := filepath.Clean(arg)
 	pre := verifSnap()
 	li := verifEntryByPath(c)
+	_ = w.WatchList() // an earlier look at the list must not influence later answers
 
 	verifLockMon(true)
 	err := w.Add(arg)
@@ -209,6 +210,7 @@ func H_step_remove() {
 	c := filepath.Clean(arg)
 	pre := verifSnap()
 	li := verifEntryByPath(c)
+	_ = w.WatchList()
 
 	verifLockMon(true)
 	err := w.Remove(arg)
